@@ -4,6 +4,7 @@ CONSTANTS
   MaxEnv = 2
   MaxUpd = 3
   MaxHist = 0
+  Fix = FALSE
 VIEW view
 PROPERTIES RefinesAll
 CHECK_DEADLOCK FALSE
